@@ -83,6 +83,9 @@ func RunSpec(t *testing.T, spec core.Spec, keepLog bool) *core.Result {
 			sc(ctx)
 		})
 	}()
+	for _, f := range ctx.After {
+		f()
+	}
 	close(done)
 	res.WallMS = time.Since(t0).Milliseconds()
 	res.Spec.Tape = tape.Rec
